@@ -1,4 +1,4 @@
-package agreement
+package network
 
 // C41 — shared mutation engine (this file is copied verbatim, except for the package clause,
 // into every package that hosts a part of the check: agreement, network, node, data).
